@@ -1,8 +1,11 @@
 use std::marker::PhantomData;
 
-use lz4_flex::{compress_prepend_size, decompress_size_prepended};
+use lz4_flex::{
+    block::{decompress, uncompressed_size},
+    compress_prepend_size,
+};
 
-use crate::{Result, impl_bytes_value_strategy};
+use crate::{Error, Result, impl_bytes_value_strategy};
 
 use super::{super::inner::CompressionStrategy, value::LZ4VecValue};
 
@@ -21,12 +24,30 @@ where
     }
 
     fn decompress(bytes: &[u8], expected_len: usize) -> Result<Vec<T>> {
-        let decompressed = decompress_size_prepended(bytes)?;
+        let decompressed = Self::decompress_checked(bytes, expected_len)?;
         Self::bytes_to_values(&decompressed, expected_len)
     }
 
     fn decompress_into(bytes: &[u8], expected_len: usize, dst: &mut Vec<T>) -> Result<()> {
-        let decompressed = decompress_size_prepended(bytes)?;
+        let decompressed = Self::decompress_checked(bytes, expected_len)?;
         Self::bytes_to_values_into(&decompressed, expected_len, dst)
+    }
+}
+
+impl<T> LZ4Strategy<T>
+where
+    T: LZ4VecValue,
+{
+    /// The size prefix comes from disk: only trust it if it is what the page index says
+    /// (the output buffer is allocated from it).
+    fn decompress_checked(bytes: &[u8], expected_len: usize) -> Result<Vec<u8>> {
+        let (size, rest) = uncompressed_size(bytes)?;
+        if expected_len.checked_mul(size_of::<T>()) != Some(size) {
+            return Err(Error::DecompressionMismatch {
+                expected_len,
+                actual_len: size / size_of::<T>().max(1),
+            });
+        }
+        Ok(decompress(rest, size)?)
     }
 }
